@@ -26,7 +26,7 @@ LEVEL = "fault_enumeration"
 RULE = ("systematic sweep of the per-POST behaviour matrix (status x content-type x body kind x SSE encoding x exception x session header, one "
         "request and one notification each) + seeded sequences of 1..4 (thorough 6) messages with random behaviours/latencies; "
         "non-trivial = at least one POST was answered by something other than a plain 200 JSON response")
-PROBES = ["line_separator_chars_in_payload", "sse_without_event_field", "sse_no_space_after_data", "sse_crlf", "sse_comment_lines", "sse_multiline_data", "sse_multi_event",
+PROBES = ["sse_dataless_typed_event", "line_separator_chars_in_payload", "sse_without_event_field", "sse_no_space_after_data", "sse_crlf", "sse_comment_lines", "sse_multiline_data", "sse_multi_event",
           "json_batch_body", "error_status", "transport_exception", "timeout", "redirect_followed", "session_id_changed",
           "request_after_failure_answered", "empty_body", "notification_post_failed", "int_request_id"]
 TIERS = {"quick": {"runs": 12000, "wall": 45.0}, "thorough": {"runs": 600000, "wall": 560.0}}
@@ -51,7 +51,7 @@ def _sse_enc(rng=None):
     r = (lambda a: rng.choice(a)) if rng else (lambda a: a[0])
     return {"event": r(["message", None, "message", None]), "space": r([True, False, True]), "eol": r(["\n", "\r\n", "\n"]),
             "comments": r([False, True]), "multiline": r([False, False, True]), "id_field": r([False, True]), "final_blank": r([True, True, True, False]),
-            "ping_event": r([False, True])}
+            "ping_event": r([False, True]), "empty_typed_event": r([False, False, True])}
 
 
 def _behaviour(rng):
@@ -110,7 +110,8 @@ def systematic(tier: str):
     for event in ["message", None]:
         for space in [True, False]:
             for eol in ["\n", "\r\n"]:
-                for extra in [{}, {"comments": True}, {"multiline": True}, {"id_field": True}, {"final_blank": False}, {"ping_event": True}]:
+                for extra in [{}, {"comments": True}, {"multiline": True}, {"id_field": True}, {"final_blank": False}, {"ping_event": True},
+                              {"empty_typed_event": True}]:
                     e = _sse_enc(); e.update({"event": event, "space": space, "eol": eol}); e.update(extra)
                     sse_variants.append(e)
     for c in cells:
@@ -151,7 +152,7 @@ def simplify(scn):
             c = copy.deepcopy(scn); c["msgs"][i]["gap"] = 0; yield c
         if b["sse"] != _sse_enc() and "event-stream" not in (b["ctype"] or ""):
             c = copy.deepcopy(scn); c["msgs"][i]["beh"]["sse"] = _sse_enc(); yield c
-        for key, val in (("comments", False), ("multiline", False), ("id_field", False), ("ping_event", False), ("final_blank", True), ("eol", "\n")):
+        for key, val in (("comments", False), ("multiline", False), ("id_field", False), ("ping_event", False), ("empty_typed_event", False), ("final_blank", True), ("eol", "\n")):
             if b["sse"].get(key) != val:
                 c = copy.deepcopy(scn); c["msgs"][i]["beh"]["sse"][key] = val; yield c
     if scn["init_session"]:
@@ -190,6 +191,8 @@ def _sse_bytes(msgs, enc):
         out.append(": keepalive comment")
     if enc.get("ping_event"):
         out += ["event:" + sp + "ping", "data:" + sp + "{}", ""]
+    if enc.get("empty_typed_event"):
+        out += ["event:" + sp + "heartbeat", ""]  # a typed event without data: dispatches nothing and must not leak its type
     for i, m in enumerate(msgs):
         if enc.get("comments") and i:
             out.append(":another comment")
@@ -499,6 +502,8 @@ def execute(scn: dict) -> dict:
                 probe("sse_comment_lines")
             if e.get("multiline"):
                 probe("sse_multiline_data")
+            if e.get("empty_typed_event"):
+                probe("sse_dataless_typed_event")
             if b["body"] == "notifs_then_response":
                 probe("sse_multi_event")
         if b["body"] == "batch" and "json" in ctype and b["status"] < 300 and not b.get("exc"):
@@ -605,7 +610,7 @@ def _tag(b, notif):
             e = b["sse"]
             core += "/sse(" + ",".join(x for x, on in (("noevent", not e["event"]), ("nospace", not e["space"]), ("crlf", e["eol"] == "\r\n"),
                                                        ("comments", e.get("comments")), ("multiline", e.get("multiline")), ("id", e.get("id_field")),
-                                                       ("nofinalblank", not e.get("final_blank", True)), ("ping", e.get("ping_event"))) if on) + ")"
+                                                       ("nofinalblank", not e.get("final_blank", True)), ("ping", e.get("ping_event")), ("emptytyped", e.get("empty_typed_event"))) if on) + ")"
     return ("N:" if notif else "R:") + core
 
 
